@@ -233,8 +233,8 @@ def run_job(job):
                     rx_compile(pat)
                 except re.error:
                     continue
-            if not pat:
-                continue
+            if rng.random() < 0.03:
+                pat = ""          # the empty pattern: matches no name (every name under =~)
             try:
                 lit = model.quote_lit(pat)
             except ValueError:
